@@ -502,7 +502,7 @@ def main(tier):
         rep.model("P2Bin_Gen(%s)" % cfg, cov)
         cases += [("cover", x) for (tag, x) in cov.printed if tag == "TR"]
     ncover = len(cases)
-    nsim = 420 if tier == "quick" else 4200
+    nsim = 400 if tier == "quick" else 4000
     with Phase("TLC simulate"):
         sim = tlc.must(tlc.run("P2Bin_Gen", "P2Bin_Sim.cfg", workers=4, simulate=nsim, depth=12, timeout=1500,
                                mem="8g"), "P2Bin_Gen simulate")
